@@ -176,10 +176,13 @@ class Sched:
             en = [t for t in self.threads if not t.done and tmo(t)]
             en.sort(key=lambda t: (t.blockver, t.tid))
             return en
+        truly = set(id(t) for t in en)
         for t in self.threads:
             if not t.done and t not in en and t.blockver < self.version and tmo(t):
                 en.append(t)
-        en.sort(key=lambda t: (t is not me, t.tid))
+        # canonical order: the running participant, then the enabled ones by id, then waiters that
+        # could be woken by time passing (timers, pollers, the environment): those are deviations
+        en.sort(key=lambda t: (t is not me, id(t) not in truly, t.tid))
         return en
 
     def _fail(self, exc):
